@@ -45,14 +45,31 @@ def _reflect(i, n):
     return i if i < n else period - 1 - i
 
 
+def _conj(w):
+    out = np.empty(len(w), dtype=object)
+    for i, v in enumerate(w):
+        out[i] = v.conjugate() if hasattr(v, 'conjugate') else v
+    return out
+
+
 def convolve1d_ref(seq, weights, axis=0, origin=0, **kw):
-    if kw.get('mode', 'reflect') != 'reflect' or axis != 0:
-        raise sn.Unsupported('convolve1d reference only models axis=0, mode=reflect')
+    """scipy.ndimage.convolve1d = correlate1d with the reversed weights and the mirrored origin (complex weights are
+    pre-conjugated there to cancel the conjugation inside correlate1d)"""
     w = np.asarray(weights)[::-1]
     origin = -origin
-    size = len(w)
-    if not size & 1:
+    if not len(w) & 1:
         origin -= 1
+    return correlate1d_ref(seq, w, axis=axis, origin=origin, _conjugate=False, **kw)
+
+
+def correlate1d_ref(seq, weights, axis=0, origin=0, _conjugate=True, **kw):
+    """reference for scipy.ndimage.correlate1d(mode='reflect'); complex weights are conjugated, as scipy does"""
+    if kw.get('mode', 'reflect') != 'reflect' or axis != 0:
+        raise sn.Unsupported('correlate1d reference only models axis=0, mode=reflect')
+    w = np.asarray(weights)
+    if _conjugate and (w.dtype.kind == 'c' or (w.dtype == object and any(isinstance(v, (complex, sn.SymC)) for v in w))):
+        w = _conj(w) if w.dtype == object else w.conj()
+    size = len(w)
     size1 = size // 2
     if not (-(size // 2) <= origin <= (size - 1) // 2):
         raise ValueError('invalid origin')
@@ -68,22 +85,32 @@ def convolve1d_ref(seq, weights, axis=0, origin=0, **kw):
     return out
 
 
-def convolve1d_stub(input, weights, axis=-1, output=None, mode='reflect', cval=0.0, origin=0):
-    """stand-in for scipy.ndimage.convolve1d (the C kernel only): the library's own ``convolve`` wrapper, which splits
-    complex data and forwards axis / origin, is real repo code and runs unchanged on top of this."""
-    seq = input if isinstance(input, np.ndarray) else np.asarray(input)
-    if not sn.has_sym(seq) and not sn.has_sym(np.asarray(weights)):
-        return _REAL_CONVOLVE1D[0](input, weights, axis=axis, output=output, mode=mode, cval=cval, origin=origin)
-    if output is not None:
-        raise sn.Unsupported('convolve1d reference: output= not modelled')
-    ax = axis if axis >= 0 else seq.ndim + axis
-    if ax != 0:
-        moved = np.moveaxis(np.asarray(seq), ax, 0)
-        r = convolve1d_ref(moved, weights, axis=0, origin=origin, mode=mode)
-        r = np.moveaxis(r, 0, ax)
-    else:
-        r = convolve1d_ref(seq, weights, axis=0, origin=origin, mode=mode)
-    return sn.normalize(r.view(sn.SymArr))
+def _kernel_stub(which):
+    ref = convolve1d_ref if which == 'convolve1d' else correlate1d_ref
+
+    def stub(input, weights, axis=-1, output=None, mode='reflect', cval=0.0, origin=0):
+        seq = input if isinstance(input, np.ndarray) else np.asarray(input)
+        if not sn.has_sym(seq) and not sn.has_sym(np.asarray(weights)):
+            import scipy.ndimage as _ndi
+            return getattr(_ndi, which)(input, weights, axis=axis, output=output, mode=mode, cval=cval, origin=origin)
+        if output is not None:
+            raise sn.Unsupported('%s reference: output= not modelled' % which)
+        ax = axis if axis >= 0 else seq.ndim + axis
+        if ax != 0:
+            moved = np.moveaxis(np.asarray(seq), ax, 0)
+            r = ref(moved, weights, axis=0, origin=origin, mode=mode)
+            r = np.moveaxis(r, 0, ax)
+        else:
+            r = ref(seq, weights, axis=0, origin=origin, mode=mode)
+        return sn.normalize(r.view(sn.SymArr))
+    stub.__name__ = which + '_stub'
+    return stub
+
+
+# stand-ins for the scipy.ndimage C kernels only: the library's own ``convolve`` wrapper, which splits complex data and
+# forwards axis / origin, is real repo code and runs unchanged on top of these
+convolve1d_stub = _kernel_stub('convolve1d')
+correlate1d_stub = _kernel_stub('correlate1d')
 
 
 _REAL_CONVOLVE1D = [None]
@@ -92,7 +119,7 @@ _REAL_CONVOLVE1D = [None]
 def validate_convolve_stub(seed=0):
     """Differential run of the reference against the real C kernel (all rows,
     including the reflected boundary rows).  Returns number of comparisons."""
-    from scipy.ndimage import convolve1d as real
+    from scipy.ndimage import convolve1d as real, correlate1d as real_corr
     rng = np.random.default_rng(seed)
     n_cmp = 0
     for k in range(1, 10):
@@ -108,6 +135,19 @@ def validate_convolve_stub(seed=0):
                     if not np.allclose(a, b, rtol=1e-12, atol=1e-12):
                         raise RuntimeError('convolve1d reference disagrees with scipy at k=%d n=%d origin=%d' % (k, n, origin))
                     n_cmp += 1
+                    # the sibling kernel, with complex weights (scipy conjugates them in correlate1d, not in convolve1d)
+                    crule = rule + 1j * rng.normal(size=k)
+                    if abs(origin) <= (k - 1) // 2 and -(k // 2) <= origin:
+                        for fn, ref in ((real_corr, correlate1d_ref), (real, convolve1d_ref)):
+                            try:
+                                a = fn(seq, crule, axis=0, origin=origin)
+                            except ValueError:
+                                continue
+                            b = np.asarray(ref(seq.astype(object), crule, axis=0, origin=origin), dtype=complex)
+                            if not np.allclose(a, b, rtol=1e-12, atol=1e-12):
+                                raise RuntimeError('%s reference disagrees with scipy at k=%d n=%d origin=%d (complex weights)'
+                                                   % (ref.__name__, k, n, origin))
+                            n_cmp += 1
     return n_cmp
 
 
@@ -156,7 +196,11 @@ def traced(widen=True, merge_max=True, extra=None):
             if merge_max:
                 setg(mod, 'max', sn.sym_max)
                 setg(mod, 'min', sn.sym_min)
-        setg(ex, 'convolve1d', convolve1d_stub)
+        for mod in m.values():
+            # whichever of the two scipy kernels a module has imported
+            for kname, kstub in (('convolve1d', convolve1d_stub), ('correlate1d', correlate1d_stub)):
+                if kname in mod.__dict__:
+                    setg(mod, kname, kstub)
         setg(ex, 'linalg', LinalgProxy(ex.linalg))
         setg(fd, 'linalg', LinalgProxy(fd.linalg))
         for (mod, name, val) in (extra or []):
